@@ -35,8 +35,74 @@ PANICKING = {
     "Vec::<T, A>::drain": "vec-remove",
     "Vec::<T, A>::split_off": "vec-remove",
     "Iterator::step_by": "step_by",
+    # documented "Panics" sections of std APIs on strings, slices and vectors
+    "str::<impl str>::split_at": "std-panics",
+    "str::<impl str>::split_at_mut": "std-panics",
+    "String::insert": "std-panics",
+    "String::insert_str": "std-panics",
+    "String::remove": "std-panics",
+    "String::truncate": "std-panics",
+    "String::drain": "std-panics",
+    "String::split_off": "std-panics",
+    "String::replace_range": "std-panics",
+    "slice::<impl [T]>::swap": "std-panics",
+    "slice::<impl [T]>::rotate_left": "std-panics",
+    "slice::<impl [T]>::rotate_right": "std-panics",
+    "slice::<impl [T]>::copy_within": "std-panics",
+    "slice::<impl [T]>::swap_with_slice": "std-panics",
+    "slice::<impl [T]>::rchunks": "chunks",
+    "slice::<impl [T]>::rchunks_exact": "chunks",
+    "slice::<impl [T]>::chunks_mut": "chunks",
+    "slice::<impl [T]>::chunks_exact_mut": "chunks",
+    "slice::<impl [T]>::select_nth_unstable": "std-panics",
+    "slice::<impl [T]>::as_chunks": "std-panics",
+    "slice::<impl [T]>::as_rchunks": "std-panics",
+    "slice::<impl [T]>::repeat": "std-panics",
+    "Vec::<T, A>::extend_from_within": "std-panics",
+    "Vec::<T, A>::splice": "std-panics",
+    "VecDeque::<T, A>::swap": "std-panics",
+    "VecDeque::<T, A>::insert": "std-panics",
+    "char::from_digit": "std-panics",
+    "char::methods::<impl char>::to_digit": "std-panics",
+    "Duration::from_secs_f64": "std-panics",
+    "Duration::from_secs_f32": "std-panics",
+    "Duration::mul_f64": "std-panics",
+    "Duration::new": "std-panics",
     "RefCell::<T>::borrow_mut": "refcell",
     "RefCell::<T>::borrow": "refcell",
+}
+# #[track_caller] functions of std that cannot panic for any argument (the attribute is there for a callee's sake or
+# for allocation failure, which is out of scope): triaged one by one
+TRACKED_TOTAL = {
+    "FromResidual::from_residual": "`?` - forwards the error value through From::from, which the crate's impls define as plain constructors",
+    "Into::into": "blanket impl over From::from",
+    "From::from": "conversion impls of std are total",
+    "Try::branch": "discriminant test",
+    "BitXor::bitxor": "bit operations on primitive integers (by value or by reference) cannot overflow",
+    "BitAnd::bitand": "bit operation",
+    "BitOr::bitor": "bit operation",
+    "Not::not": "bit operation",
+    "BitXorAssign::bitxor_assign": "bit operation",
+    "BitAndAssign::bitand_assign": "bit operation",
+    "BitOrAssign::bitor_assign": "bit operation",
+    "Clone::clone": "allocation only",
+    "ToOwned::to_owned": "allocation only",
+    "ToString::to_string": "allocation only (Display impls of the crate are checked separately)",
+    "slice::<impl [T]>::to_vec": "allocation only",
+    "Vec::<T, A>::push": "allocation only",
+    "Vec::<T, A>::reserve": "allocation only",
+    "Vec::<T, A>::extend_from_slice": "allocation only",
+    "Vec::<T>::with_capacity": "allocation only",
+    "String::push_str": "allocation only",
+    "String::push": "allocation only",
+    "Iterator::collect": "allocation only",
+    "FromIterator::from_iter": "allocation only",
+    "Extend::extend": "allocation only",
+    "alloc::from_elem": "allocation only",
+    "Vec::<T, A>::resize": "allocation only",
+    "Vec::<T, A>::append": "allocation only",
+    "Box::<T>::new": "allocation only",
+    "alloc::format": "allocation only",
 }
 PANIC_PATH = re.compile(r"(^|::)(panicking::|rt::begin_panic|panic_fmt|panic_display|assert_failed|unreachable_display|panic_any|process::abort|process::exit|handle_alloc_error|unwrap_failed|expect_failed|option::expect_failed|slice_index_fail|len_mismatch_fail)")
 
@@ -49,11 +115,15 @@ def site_kind(t):
     from ..core.sym import callee_id
 
     name = callee_id(c)[0]
-    if name in PANICKING:
+    if name in PANICKING and PANICKING[name]:
         return PANICKING[name]
     p = c["path"]
     if PANIC_PATH.search(p):
         return "panic"
+    if (c.get("track_caller") or (c.get("resolved") or {}).get("track_caller")) and c.get("crate") in ("core", "std", "alloc") and name not in TRACKED_TOTAL:
+        # std marks with #[track_caller] the functions that panic on behalf of their caller: one that is neither in the
+        # table above nor triaged as total below is an abort-capable call (str::split_at, slice::swap, Vec::remove ...)
+        return "track-caller"
     if c.get("trait") in ("Add", "Sub", "AddAssign", "SubAssign") and c.get("self_ty") in ("SystemTime", "Instant", "Duration"):
         return "time-arith"
     if c.get("trait") in ("Div", "Rem") and c.get("self_ty") in ("Duration",):
